@@ -85,7 +85,11 @@ class Rich:
                 self.use("enum_empty_string_value")
             self.use("enum_inline")
         elif k == "free_form":
-            variant = r.choice(["bare_object", "addl_true", "any"])
+            # clean grammar: the explicit spelling (additionalProperties: true); the keyword-less spellings {} and
+            # {"type": "object"} are the trigger class 'free_form_empty_schema' (recorded finding of C03)
+            variant = r.choice(["bare_object", "addl_true", "any"]) if "free_form_empty_schema" in self.allow else "addl_true"
+            if variant != "addl_true":
+                self.use("free_form_empty_schema")
             node = {"bare_object": {"type": "object"}, "addl_true": {"type": "object", "additionalProperties": True}, "any": {}}[variant]
             e = {"kind": "free_form", "variant": variant}
             self.use(f"free_form_{variant}")
